@@ -314,24 +314,27 @@ func c37Run(t *testing.T, deep bool, weights map[string]int, steps, quick, thoro
 		if s.maxBkts >= 3 {
 			ev.Class("case:unfolded>=3")
 		}
-		if s.maxBkts >= 30 {
-			ev.Class("case:unfolded>=30")
+		if deep {
+			ev.Class("deep:cases")
+			if s.maxBkts >= 30 {
+				ev.Class("deep:unfolded>=30")
+			}
 		}
 		ev.Case(s.maxBkts >= 3 && (removed || rejected), s.desc())
 	})
 }
 
 func TestC37_Structure(t *testing.T) {
-	c37Run(t, false, map[string]int{"update": 5, "remove": 2, "nearest": 1, "find": 1}, 60, 1500, 50000)
+	c37Run(t, false, map[string]int{"update": 5, "remove": 2, "nearest": 1, "find": 1}, 60, 4000, 50000)
 }
 
 func TestC37_Nearest(t *testing.T) {
 	harn.For("C37").Floor("nearest:two-or-more", "nearest", 0.3)
-	c37Run(t, false, map[string]int{"update": 3, "remove": 1, "nearest": 4, "find": 1}, 60, 1500, 50000)
+	c37Run(t, false, map[string]int{"update": 3, "remove": 1, "nearest": 4, "find": 1}, 60, 4000, 50000)
 }
 
 // ids sharing up to 159 prefix bits with the local id: the last bucket unfolds dozens of levels in one Update.
 func TestC37_DeepUnfold(t *testing.T) {
-	harn.For("C37").Floor("case:unfolded>=30", "", 0.2)
-	c37Run(t, true, map[string]int{"update": 5, "remove": 2, "nearest": 2, "find": 1}, 60, 1000, 30000)
+	harn.For("C37").Floor("deep:unfolded>=30", "deep:cases", 0.2)
+	c37Run(t, true, map[string]int{"update": 5, "remove": 2, "nearest": 2, "find": 1}, 60, 3000, 30000)
 }
